@@ -28,7 +28,7 @@ class PathAbort(BaseException):
 # --------------------------------------------------------------------------
 
 class Ctx:
-    def __init__(self, prefix=(), query_timeout_ms=10000, assumptions=(), div_mode='assume'):
+    def __init__(self, prefix=(), query_timeout_ms=10000, assumptions=(), div_mode='assume', sqrt_mode='fresh'):
         self.solver = z3.Solver()
         self.solver.set('timeout', query_timeout_ms)
         self.query_timeout_ms = query_timeout_ms
@@ -45,6 +45,7 @@ class Ctx:
         self.notes = []
         self.positive = set()
         self.div_mode = div_mode
+        self.sqrt_mode = sqrt_mode
         for a in assumptions:
             self.assume(a)
 
@@ -172,7 +173,7 @@ class PathResult:
 
 
 def explore(fn, max_paths=2000, query_timeout_ms=10000, wall_s=None,
-            catch=(Exception,), assumptions=(), div_mode='assume'):
+            catch=(Exception,), assumptions=(), div_mode='assume', sqrt_mode='fresh'):
     """Run fn() once per feasible path (DFS by re-execution).
 
     fn receives no arguments and creates its own symbolic inputs (same names on
@@ -183,7 +184,7 @@ def explore(fn, max_paths=2000, query_timeout_ms=10000, wall_s=None,
     prefix = []
     t0 = time.time()
     while True:
-        c = Ctx(prefix, query_timeout_ms, assumptions=(), div_mode=div_mode)
+        c = Ctx(prefix, query_timeout_ms, assumptions=(), div_mode=div_mode, sqrt_mode=sqrt_mode)
         set_ctx(c)
         try:
             for a in assumptions:
@@ -639,10 +640,14 @@ class SR(_Num):
         if key in memo:
             return memo[key]
         c.side.append((self.n >= 0, 'sqrt of negative'))
-        y = c.fresh('sqrt')
-        c.axiom(y >= 0)
-        c.axiom(_mul(_mul(y, y), self.den) == self.n)
-        memo[key] = r = SR(y)
+        # uninterpreted function (congruence: equal arguments give equal roots) + defining axioms
+        r = ufn('sqrt', self) if c.sqrt_mode.startswith('uf') else SR(c.fresh('sqrt'))
+        y = r.n
+        if c.sqrt_mode != 'uf-free' and ('ax', y.get_id()) not in memo:
+            memo[('ax', y.get_id())] = True
+            c.axiom(y >= 0)
+            c.axiom(_mul(_mul(y, y), self.den) == self.n)
+        memo[key] = r
         return r
 
     def log(self):
@@ -687,46 +692,44 @@ def _uf(name, arity):
 
 
 def _flat_args(args):
+    """Real z3 argument terms for an uninterpreted function.  A quotient n/d is passed as the
+    PAIR (n, d): congruence then needs n and d equal separately (sound for `unsat`; a spurious
+    `sat` that only differs by a common factor is filtered by the concrete replay)."""
     out = []
     for a in args:
         if isinstance(a, SC):
-            out.extend([a.re, a.im])
+            if a.dr is None:
+                out.extend([SR(a.nr), SR(a.ni)])
+            else:
+                out.extend([SR(a.nr), SR(a.ni), SR(a.dr), SR(a.di)])
         elif is_cnum(a):
             out.extend([a.real, a.imag])
         else:
             out.append(a)
     res = []
+    pat = ''
     for a in out:
         a = SR.lift(a)
         if a.d is None:
             res.append(a.n)
+            pat += 'n'
         else:
-            # the argument is a quotient: name it by a fresh variable tied to num/den
-            res.append(_quot_var(a))
-    return res
-
-
-def _quot_var(a):
-    c = ctx()
-    memo = c.__dict__.setdefault('memo', {})
-    key = ('q', a.n.get_id(), a.d.get_id())
-    if key not in memo:
-        q = c.fresh('q')
-        c.axiom(_mul(q, a.d) == a.n)
-        memo[key] = q
-    return memo[key]
+            res.extend([a.n, a.d])
+            pat += 'q'
+    return res, pat
 
 
 def ufn(name, *args):
     """Real-valued uninterpreted function of real/complex arguments."""
-    fa = _flat_args(args)
-    return SR(_uf(name, len(fa))(*fa))
+    fa, pat = _flat_args(args)
+    return SR(_uf(name + ('' if 'q' not in pat else '_' + pat), len(fa))(*fa))
 
 
 def ufn_c(name, *args):
     """Complex-valued uninterpreted function."""
-    fa = _flat_args(args)
-    return SC(SR(_uf(name + '_re', len(fa))(*fa)), SR(_uf(name + '_im', len(fa))(*fa)))
+    fa, pat = _flat_args(args)
+    sfx = '' if 'q' not in pat else '_' + pat
+    return SC(SR(_uf(name + '_re' + sfx, len(fa))(*fa)), SR(_uf(name + '_im' + sfx, len(fa))(*fa)))
 
 
 def _circle(a):
@@ -918,6 +921,8 @@ class SC(_Num):
         return re * re + im * im
 
     def __abs__(self):
+        if ctx().sqrt_mode == 'uf-free':
+            return ufn('cabs', self)
         return SR.lift(self.abs2()).sqrt()
 
     def __pow__(self, e):
@@ -979,10 +984,12 @@ class SC(_Num):
                                  for t in (self.nr, self.ni, self.dr, self.di))
         if key in memo:
             return memo[key]
-        p, q = c.fresh('csqrt_p'), c.fresh('csqrt_q')
-        r = SC.raw(p, q)
-        c.axiom((r * r).eq_t(self))
-        c.axiom(p >= 0)
+        r = ufn_c('csqrt', self) if c.sqrt_mode.startswith('uf') else SC.raw(c.fresh('csqrt_p'), c.fresh('csqrt_q'))
+        p, q = r.nr, r.ni
+        if c.sqrt_mode != 'uf-free' and ('ax', p.get_id()) not in memo:
+            memo[('ax', p.get_id())] = True
+            c.axiom((r * r).eq_t(self))
+            c.axiom(z3.Or(p > 0, z3.And(p == 0, q >= 0)))
         memo[key] = r
         return r
 
